@@ -39,6 +39,8 @@ def strategy_(draw, tier="quick"):
         sp["der"] = gen.dynamics(draw, tab)
     sp["method"] = m
     gen.fill_param_values(draw, sp, m["N"])
+    # set_der / set_next either per state or once on a concatenation of all states (matrix-shaped ones in between)
+    sp["dyn_concat"] = draw(st.integers(0, 2)) == 0
     return {"spec": sp, "rng": draw(st.integers(0, 2**31 - 1))}
 
 
@@ -72,6 +74,8 @@ def classify(case):
         labs.append("grid:localized")
     if any(d.get("quad") for d in sp["states"]):
         labs.append("quad-state")
+    if sp.get("dyn_concat"):
+        labs.append("dynamics set on a concatenation of states")
     if any(d.get("grid") == "control" for d in sp["params"] + sp["vars"]):
         labs.append("per-interval p/v")
     if any(d.get("grid") == "control+" for d in sp["params"] + sp["vars"]):
